@@ -60,6 +60,8 @@ Inductive pc :=
   | RCas | RLoad                  (* releaseReader *)
   | LCas | LLoad                  (* releaseLock: the three CASes, chosen on saved state *)
   | LLook1 | LLook2               (* file.lookup: f.current.Load(); newCounter1 under f.mu *)
+  | GIvLoad | GIvCas              (* lookup extended the file itself: cleanup's Counter.invalidate ... *)
+  | GRfLoad | GClose              (* ... Counter.refresh (sees the lock), current.close() and c.ptr = <returned> *)
   | LCellLoad | LCellCas          (* releaseLock: c.add(extra) *)
   | CIdle | CPre | CStore         (* changer: [f.current.Load() in file.lookup;] store f.current under f.mu *)
   | CNop (k : nat)                (* k operations that do not touch the modelled state *)
@@ -87,7 +89,11 @@ Record shared := mkS {
   s_closed : list nat;       (* closed mapping ids *)
   s_cells : list Z;          (* file id -> persisted value of this counter *)
   s_faults : Z;              (* accesses through a closed mapping *)
-  s_sat : bool               (* some add saturated *)
+  s_sat : bool;              (* some add saturated *)
+  s_full : bool;             (* the current file has no room for this counter's record: the first
+                                lookup that has to create it extends the file (newCounter1's newM) *)
+  s_new : option nat         (* lock holder only: the mapping lookup returned a pointer into,
+                                not yet assigned to c.ptr (cleanup runs in between) *)
 }.
 
 Definition state := (shared * list thread)%type.
@@ -104,17 +110,17 @@ Definition cell_of (s : shared) (g : nat) : Z := nth (file_of s g) (s_cells s) 0
 Definition is_closed (s : shared) (g : nat) : bool := existsb (Nat.eqb g) (s_closed s).
 
 Definition set_word (s : shared) (w : Z) : shared :=
-  mkS w (s_ptr s) (s_cur s) (s_maps s) (s_closed s) (s_cells s) (s_faults s) (s_sat s).
+  mkS w (s_ptr s) (s_cur s) (s_maps s) (s_closed s) (s_cells s) (s_faults s) (s_sat s) (s_full s) (s_new s).
 Definition set_sat (s : shared) (b : bool) : shared :=
-  mkS (s_word s) (s_ptr s) (s_cur s) (s_maps s) (s_closed s) (s_cells s) (s_faults s) (s_sat s || b).
+  mkS (s_word s) (s_ptr s) (s_cur s) (s_maps s) (s_closed s) (s_cells s) (s_faults s) (s_sat s || b) (s_full s) (s_new s).
 Definition set_ptr (s : shared) (p : option nat) : shared :=
-  mkS (s_word s) p (s_cur s) (s_maps s) (s_closed s) (s_cells s) (s_faults s) (s_sat s).
+  mkS (s_word s) p (s_cur s) (s_maps s) (s_closed s) (s_cells s) (s_faults s) (s_sat s) (s_full s) (s_new s).
 Definition touch (s : shared) (g : nat) : shared :=   (* an access through mapping g *)
   mkS (s_word s) (s_ptr s) (s_cur s) (s_maps s) (s_closed s) (s_cells s)
-      (if is_closed s g then s_faults s + 1 else s_faults s) (s_sat s).
+      (if is_closed s g then s_faults s + 1 else s_faults s) (s_sat s) (s_full s) (s_new s).
 Definition set_cell (s : shared) (g : nat) (v : Z) : shared :=
   mkS (s_word s) (s_ptr s) (s_cur s) (s_maps s) (s_closed s)
-      (upd (s_cells s) (file_of s g) v) (s_faults s) (s_sat s).
+      (upd (s_cells s) (file_of s g) v) (s_faults s) (s_sat s) (s_full s) (s_new s).
 
 Definition with_pc (t : thread) (p : pc) : thread :=
   mkT p (t_kind t) (t_st t) (t_amt t) (t_old t) (t_prev t) (t_tgt t) (t_after t).
@@ -122,6 +128,10 @@ Definition with_st (t : thread) (p : pc) (w : Z) : thread :=
   mkT p (t_kind t) w (t_amt t) (t_old t) (t_prev t) (t_tgt t) (t_after t).
 Definition with_old (t : thread) (p : pc) (v : Z) : thread :=
   mkT p (t_kind t) (t_st t) (t_amt t) v (t_prev t) (t_tgt t) (t_after t).
+(* the inline invalidate keeps its own copy of the word in t_old: t_st is
+   releaseLock's saved state, used again by the CAS after lookup returns *)
+Definition with_st2 (t : thread) (p : pc) (w : Z) : thread :=
+  mkT p (t_kind t) (t_st t) (t_amt t) w (t_prev t) (t_tgt t) (t_after t).
 Definition with_amt (t : thread) (p : pc) (w a : Z) : thread :=
   mkT p (t_kind t) w a (t_old t) (t_prev t) (t_tgt t) (t_after t).
 
@@ -229,7 +239,36 @@ Definition step_thread (np : nops) (s : shared) (t : thread) : shared * thread :
       | None => (set_ptr s None, with_pc t LCas)
       | Some _ => (s, with_pc t LLook2)
       end
-  | LLook2 => (set_ptr s (s_cur s), with_pc t LCas)
+  | LLook2 =>
+      match s_cur s, t_prev t with
+      | Some g0, None =>
+          if s_full s then
+            (* the record does not fit: newCounter1 extends the file, stores the new
+               mapping, and returns a pointer into it; the cleanup (invalidate and
+               refresh every counter, close the previous mapping) runs before
+               lookup returns *)
+            let g := length (s_maps s) in
+            (mkS w (s_ptr s) (Some g) (s_maps s ++ [file_of s g0]) (s_closed s) (s_cells s) (s_faults s) (s_sat s) false (Some g),
+             mkT GIvLoad (t_kind t) (t_st t) (t_amt t) (t_old t) (Some g0) (t_tgt t) (t_after t))
+          else (set_ptr s (s_cur s), with_pc t LCas)
+      | _, _ => (set_ptr s (s_cur s), with_pc t LCas)
+      end
+  | GIvLoad =>
+      if w_have w then (s, with_st2 t GIvCas w) else (s, with_pc t GRfLoad)
+  | GIvCas =>
+      if w =? t_old t then (set_word s (w_clear_have (t_old t)), with_pc t GRfLoad)
+      else (s, with_pc t GIvLoad)
+  | GRfLoad =>
+      if w_have w || (0 <? w_readers w) || (w_extra w =? 0)
+      then (s, with_pc t GClose)
+      else (s, with_pc t Crash)   (* refresh would take the lock the thread already holds: proved unreachable *)
+  | GClose =>
+      match t_prev t with
+      | Some g =>
+          (mkS w (s_new s) (s_cur s) (s_maps s) (g :: s_closed s) (s_cells s) (s_faults s) (s_sat s) (s_full s) (s_new s),
+           with_pc t LCas)
+      | None => (set_ptr s (s_new s), with_pc t LCas)
+      end
   | LCellLoad =>
       match s_ptr s with
       | Some g => (touch s g, with_old t LCellCas (cell_of s g))
@@ -251,17 +290,17 @@ Definition step_thread (np : nops) (s : shared) (t : thread) : shared * thread :
       let t' := mkT Done Changer (t_st t) (t_amt t) (t_old t) (s_cur s) (t_tgt t) Done in
       match t_tgt t with
       | NewFile =>
-          (mkS w (s_ptr s) (Some g) (s_maps s ++ [length (s_cells s)]) (s_closed s) (s_cells s ++ [0]) (s_faults s) (s_sat s),
+          (mkS w (s_ptr s) (Some g) (s_maps s ++ [length (s_cells s)]) (s_closed s) (s_cells s ++ [0]) (s_faults s) (s_sat s) false (s_new s),
            goto_nops t' (n_after_store_rotate np) IvLoad)
       | SameFile =>
           match s_cur s with
           | Some g0 =>
-              (mkS w (s_ptr s) (Some g) (s_maps s ++ [file_of s g0]) (s_closed s) (s_cells s) (s_faults s) (s_sat s),
+              (mkS w (s_ptr s) (Some g) (s_maps s ++ [file_of s g0]) (s_closed s) (s_cells s) (s_faults s) (s_sat s) false (s_new s),
                goto_nops t' (n_after_store_extend np) IvLoad)
           | None => (s, with_pc t Done)
           end
       | NoFile =>
-          (mkS w (s_ptr s) None (s_maps s) (s_closed s) (s_cells s) (s_faults s) (s_sat s),
+          (mkS w (s_ptr s) None (s_maps s) (s_closed s) (s_cells s) (s_faults s) (s_sat s) (s_full s) (s_new s),
            goto_nops t' (n_after_store_rotate np) IvLoad)
       end
   | CNop k =>
@@ -281,7 +320,7 @@ Definition step_thread (np : nops) (s : shared) (t : thread) : shared * thread :
   | CClose =>
       match t_prev t with
       | Some g =>
-          (mkS w (s_ptr s) (s_cur s) (s_maps s) (g :: s_closed s) (s_cells s) (s_faults s) (s_sat s),
+          (mkS w (s_ptr s) (s_cur s) (s_maps s) (g :: s_closed s) (s_cells s) (s_faults s) (s_sat s) (s_full s) (s_new s),
            with_pc t Done)
       | None => (s, with_pc t Done)
       end
@@ -301,7 +340,7 @@ Definition run (np : nops) (sched : list nat) (st : state) : state := fold_left 
 Definition adder (n : Z) : thread := mkT AIdle Adder 0 n 0 None NoFile Done.
 Definition changer (tg : target) : thread := mkT CIdle Changer 0 0 0 None tg Done.
 
-Definition init_shared : shared := mkS 0 None None [] [] [] 0 false.
+Definition init_shared : shared := mkS 0 None None [] [] [] 0 false false None.
 
 (* ---- quantities the theorems speak about ---- *)
 Definition persisted (s : shared) : Z := fold_right Z.add 0 (s_cells s).
@@ -316,11 +355,11 @@ Definition code (o : option nat) : Z := match o with None => 0 | Some g => Z.of_
 Definition obs_of (s : shared) : Z * Z * Z * Z * Z :=
   (s_word s, code (s_ptr s), code (s_cur s), persisted s, Z.of_nat (length (s_closed s))).
 
-Definition init_of (w ptrc curc pers : Z) : shared :=
+Definition init_of (w ptrc curc pers : Z) (full : bool) : shared :=
   let opt c := if c =? 0 then None else Some (Z.to_nat (c - 1)) in
   match opt curc with
-  | None => mkS w (opt ptrc) None [] [] [] 0 false
-  | Some _ => mkS w (opt ptrc) (Some 0%nat) [0%nat] [] [pers] 0 false
+  | None => mkS w (opt ptrc) None [] [] [] 0 false false None
+  | Some _ => mkS w (opt ptrc) (Some 0%nat) [0%nat] [] [pers] 0 false full None
   end.
 
 Definition all_done (ts : list thread) : bool := forallb is_done ts.
